@@ -377,6 +377,24 @@ def run(tier: str, seed: int) -> int:
             continue
         for wname, st, nargs in ((name, base, 1), (f"RepeatedStepper({name})", ex.RepeatedStepper(base, 2), 1), (f"ForcedStepper({name})", ex.ForcedStepper(base), 2)):
             u_np = rng.standard_normal((base.num_channels,) + (N,) * D) * 0.3
+            # Nyquist-free with a non-zero mean in every channel: on such states sub-stepping in Fourier space is the one-at-a-time loop
+            u_np = np.asarray(ex.ifft(ex.fft(jnp.asarray(u_np)) * ex.spectral.oddball_filter_mask(D, N), num_spatial_dims=D, num_points=N)) + \
+                np.linspace(0.2, 0.5, base.num_channels).reshape((-1,) + (1,) * D)
+            if wname.startswith("RepeatedStepper"):
+                run_.case(("wrapper-vs-loop", wname))
+                try:
+                    loop = np.asarray(base(base(jnp.asarray(u_np))))
+                    got = np.asarray(st(jnp.asarray(u_np)))
+                    trj = np.asarray(ex.rollout(st, 2)(jnp.asarray(u_np)))
+                    trj_loop = np.asarray(ex.rollout(base, 4)(jnp.asarray(u_np)))[1::2]
+                    jit_trj = np.asarray(eqx.filter_jit(ex.rollout(st, 2))(jnp.asarray(u_np)))
+                    sc1 = RTOL * 100 * (1 + float(np.max(np.abs(loop))))
+                    if not float(np.max(np.abs(got - loop))) <= sc1:
+                        run_.violation({"kind": "wrapper-vs-loop", "cls": wname, "mode": "value", "what": "one call vs the eager one-at-a-time loop"}, {})
+                    if trj.shape != trj_loop.shape or not float(np.max(np.abs(trj - trj_loop))) <= sc1 * 10 or not float(np.max(np.abs(jit_trj - trj_loop))) <= sc1 * 10:
+                        run_.violation({"kind": "wrapper-vs-loop", "cls": wname, "mode": "value", "what": "rollout of the wrapper vs strided rollout of the stepper"}, {})
+                except Exception as e:  # noqa: BLE001
+                    run_.violation({"kind": "wrapper-vs-loop", "cls": wname, "mode": "raised"}, {"exception": f"{type(e).__name__}: {str(e)[:300]}"})
             args_np = [u_np] + ([rng.standard_normal(u_np.shape) * 0.2] if nargs == 2 else [])
             keep = [a.copy() for a in args_np]
             uh_np = np.asarray(ex.fft(jnp.asarray(u_np)))
